@@ -11,13 +11,10 @@ git checkout -q -- e2e 2>/dev/null
 fails=$(echo "$suite" | grep -E "^FAIL" | grep -v "test/units/gast/versioning\|test/visitors/route" | grep -vE "^FAIL$")
 oks=$(echo "$suite" | grep -c "^ok")
 rundemo() {
-  local rc=0
-  while IFS= read -r line; do
-    cmd=$(echo "$line" | sed 's/^ *//')
-    case "$cmd" in
-      "go "*|"rm "*) bash -c "$cmd" > /tmp/seeddemo.out 2>&1; rc=$? ;;
-    esac
-  done < <(grep -vE "^\s*#" seed_demo/RUN.txt | grep -vE "git apply|\|\|" | sed 's/ 2>&1 |.*$//')
+  # the command lines of RUN.txt (go / rm / cd / sh / bash / export / parenthesised), run as one script; status of the last one
+  grep -vE "^\s*#" seed_demo/RUN.txt | grep -vE "git apply|git stash" | sed 's/^ *//' | grep -E '^(go |rm |cd |\(cd |sh |bash |export |GOFLAGS=)' | sed 's/ 2>&1 |.*$//' > /tmp/seeddemo.$$.sh
+  bash /tmp/seeddemo.$$.sh > /tmp/seeddemo.out 2>&1; local rc=$?
+  rm -f /tmp/seeddemo.$$.sh
   return $rc
 }
 rundemo; with=$?
